@@ -43,6 +43,11 @@ type Case struct {
 	// established (connection order is part of the schedule).
 	DialDelayMs []int  `json:"dial_delay_ms"`
 	Script      []Step `json:"script"`
+	// NoNet[i]: peer i does not advertise NODE_NETWORK (it still offers
+	// witness and compact-filter service, like a pruned node): the client
+	// does not consider it for header sync, but still talks to it. Never set
+	// for peer 0.
+	NoNet []bool `json:"no_net,omitempty"`
 }
 
 var advKinds = []string{"badhdr", "lightfork", "cfliar-omit", "cfliar-inconsistent", "cfliar-unserved", "garbage", "silent", "stall", "flap"}
@@ -71,6 +76,7 @@ func genCase(t *rapid.T) Case {
 	}), 0, 4).Draw(t, "advs")
 	for i := 0; i < c.Honest+len(c.Advs); i++ {
 		c.DialDelayMs = append(c.DialDelayMs, kit.Pick(t, "dial", []int{0, 0, 1, 50, 400, 3000}))
+		c.NoNet = append(c.NoNet, i > 0 && kit.Uni(t, "nonet", 4) == 0)
 	}
 	c.Script = rapid.SliceOfN(rapid.Custom(func(t *rapid.T) Step {
 		s := Step{After: kit.Pick(t, "after", []int{0, 1, 4, 15, 40}), Kind: kit.Pick(t, "skind", []string{"grow", "grow", "reorg"})}
@@ -128,6 +134,9 @@ func runCase(t *testing.T, c Case) kit.Verdict {
 	setup := func(s *netsim.Sim) {
 		for i, p := range s.Peers {
 			p.SetView(base, false)
+			if i < len(c.NoNet) && c.NoNet[i] {
+				p.Services = wire.SFNodeWitness | wire.SFNodeCF
+			}
 			if i < c.Honest {
 				p.Override = func(p *netsim.Peer, m wire.Message) bool {
 					if _, ok := m.(*wire.MsgGetHeaders); ok {
